@@ -261,6 +261,111 @@ func fileStateObligations(c *Ctx, which string) {
 			}
 		}
 	}
+	// a suicide that waited for a running seal starts when proxyFrac.Seal signals sealWg.Done(), which is
+	// before Active.Release() has removed the active files: the two op sequences then run concurrently, so
+	// every interleaving of them (and every crash prefix of each interleaving) is a reachable file set
+	// premise, read from proxyFrac.Seal: the waiter is released (sealWg.Done) before Active.Release has run; when Release
+	// comes first the two sequences are ordered and there is nothing to interleave
+	concurrent := true
+	if sealFn := c.P.Func("(*fracmanager.proxyFrac).Seal"); sealFn != nil {
+		dones := c.P.FindLifted(sealFn, CallSel(OnField(Callee("(*sync.WaitGroup).Done"), "fracmanager.proxyFrac", "sealWg")))
+		rels := c.P.FindLifted(sealFn, CallSel(Callee("(*frac.Active).Release")))
+		if len(dones) > 0 && len(rels) > 0 {
+			concurrent = false
+			for _, d := range dones {
+				after := false
+				for _, r := range rels {
+					if LiftedDominates(r, d) {
+						after = true
+					}
+				}
+				if !after {
+					concurrent = true
+				}
+			}
+		}
+	}
+	// second half of the premise: a suicide that arrives after proxyFrac.Seal has published the sealed fraction (and
+	// so finds it without having waited) is ordered behind Release only when every call of Sealed.Suicide in
+	// proxyFrac.Suicide is itself preceded by sealWg.Wait() on every path
+	if suFn := c.P.Func("(*fracmanager.proxyFrac).Suicide"); suFn != nil && !concurrent {
+		waits := c.P.FindLifted(suFn, CallSel(OnField(Callee("(*sync.WaitGroup).Wait"), "fracmanager.proxyFrac", "sealWg")))
+		kills := c.P.FindLifted(suFn, CallSel(Callee("(*frac.Sealed).Suicide")))
+		for _, k := range kills {
+			waited := false
+			for _, w := range waits {
+				if LiftedDominates(w, k) {
+					waited = true
+				}
+			}
+			if !waited {
+				concurrent = true
+			}
+		}
+		if len(kills) == 0 {
+			concurrent = true
+		}
+	}
+	c.Note("Active.Release and Sealed.Suicide of the same fraction can run concurrently: %v", concurrent)
+	for _, skip := range []string{"true", "false"} {
+		if !concurrent {
+			break
+		}
+		// KeepMetaFile=true is a configuration only tests use (cmd/seq-db sets it to false): with it neither Release nor
+		// Sealed.Suicide removes .meta, which the next start then finds alone; it is left out of this composition
+		for _, keep := range []string{"false"} {
+			cfg := map[string]string{"SkipSortDocs": skip, "KeepMetaFile": keep}
+			for _, cr := range m.create {
+				for _, se := range pick(m.seal, cfg) {
+					base := FileSet{}
+					for _, op := range cr.Ops {
+						base = base.Apply(op)
+					}
+					for _, op := range se.Ops {
+						base = base.Apply(op)
+					}
+					for _, re := range pick(m.release, cfg) {
+						for _, su := range m.sealedSuicide {
+							seenIL := map[string]bool{}
+							var walk func(fs FileSet, i, j int, begun bool, trail string)
+							walk = func(fs FileSet, i, j int, begun bool, trail string) {
+								key := fmt.Sprintf("%s|%d|%d|%v", fs.String(), i, j, begun)
+								if seenIL[key] {
+									return
+								}
+								seenIL[key] = true
+								// the deletion has begun on disk once one of its operations has changed the file set
+								// (a rename of a file that Release has already removed changes nothing)
+								if begun {
+									o := m.classify(fs)
+									c.Count("crash_states", 1)
+									ns := lifeState{fs: fs, trail: fmt.Sprintf("[%s] sealed ; Active.Release || Sealed.Suicide[%s]: %s", cfgKey(cfg), cfgKey(su.Assume), trail)}
+									switch {
+									case o.Kind == "AMBIG":
+										c.Undecided("filestate-ambig:"+fs.String(), o.Pos, "loader decision for %s could not be extracted: %s", fs, o.Why)
+									case o.Kind == "FATAL":
+										report("violated", "never-fatal", ns, o, "the store cannot start after a crash while a fraction was deleted during the tail of its sealing")
+									case !okDeleted(o, fs):
+										report("violated", "deletion-monotone:Sealed.Suicide||Release", ns, o, "a fraction whose deletion has begun (while Active.Release was still removing the active files) is served again after a crash")
+									default:
+										c.Site(su.Ops[j-1].Pos, "deleting during release: %s -> %s", fs, o.Kind)
+									}
+								}
+								if i < len(re.Ops) {
+									walk(fs.Apply(re.Ops[i]), i+1, j, begun, trail+" R:"+re.Ops[i].String())
+								}
+								if j < len(su.Ops) {
+									nfs := fs.Apply(su.Ops[j])
+									walk(nfs, i, j+1, begun || nfs.String() != fs.String(), trail+" S:"+su.Ops[j].String())
+								}
+							}
+							walk(base, 0, 0, false, "")
+						}
+					}
+				}
+			}
+		}
+	}
 	// every suffix produced by a mutator is known to makeInfos
 	all := [][]OpSeq{m.create, m.seal, m.release, m.activeSuicide, m.sealedSuicide}
 	seen := map[string]bool{}
@@ -422,7 +527,27 @@ func c15() []*Ob {
 				if len(waits) == 0 {
 					c.Violation("order:proxyFrac.Suicide:no-wait", fn.Pos(), "proxyFrac.Suicide no longer waits for a running seal before deleting")
 				}
+				// the waits that follow a trySetSuicided that reported "sealing": what was read before them is stale
+				isSealingRes := func(x ssa.Value) bool {
+					e, ok := x.(*ssa.Extract)
+					if !ok || !types.Identical(e.Type().Underlying(), types.Typ[types.Bool]) {
+						return false
+					}
+					cl, ok := e.Tuple.(ssa.CallInstruction)
+					return ok && tryM(cl)
+				}
+				var sealingWaits []ssa.CallInstruction
 				for _, w := range waits {
+					if v, found := BoolFact(FactsAtInstr(w.(ssa.Instruction)), isSealingRes); found && v {
+						sealingWaits = append(sealingWaits, w)
+					} else {
+						c.Site(w.Pos(), "sealWg.Wait() outside the sealing branch: it only delays the deletion (nothing read before it is stale)")
+					}
+				}
+				if len(waits) > 0 && len(sealingWaits) == 0 {
+					c.Violation("order:proxyFrac.Suicide:no-wait", fn.Pos(), "proxyFrac.Suicide no longer waits for a running seal when trySetSuicided reports one")
+				}
+				for _, w := range sealingWaits {
 					// a second trySetSuicided after the wait
 					ok := false
 					for _, t := range CallsIn(fn, tryM) {
